@@ -1,6 +1,8 @@
 ------------------------------ MODULE Grouping ------------------------------
-(* The staged grouping pipeline of `fclones group` without --transform (src/group.rs `group_files`):    *)
+(* The staged grouping pipeline of `fclones group` (src/group.rs `group_files`):                          *)
 (*   size -> [same-path removal] -> prefix -> suffix -> contents                                         *)
+(* or, with --transform, one single stage `transform` over all files (`group_transformed`): every        *)
+(* identity is piped through the program once, its paths take the length and the hash of the OUTPUT.     *)
 (* one action per critical section of the code: a stage of `rehash` is Begin (split the groups by the    *)
 (* pre-filter into groups to hash and groups to pass through, cut the former into runs of same-identity  *)
 (* paths), one Task step per run in ANY order (the pool tasks: hash the first path of the run, send every  *)
@@ -20,7 +22,8 @@
 (*              gets the hash {} = 0, and (a, b) collides with (b, a).  Validation of real traces found    *)
 (*              exactly such merged candidate groups after the suffix stage; the contents stage splits    *)
 (*              them again, so only --skip-content-hash is affected (see SoundSkipIdeal).                  *)
-(*   inp.cfg    [kind, rf, isolate, matchLinks, skipContent, P, T]                                        *)
+(*              With --transform also tlen, tk: length and atom of the transform output.                   *)
+(*   inp.cfg    [kind, rf, isolate, matchLinks, skipContent, transform, P, T]                              *)
 (*   inp.bad    set of paths through which the file cannot be read (C15); `failed` collects the paths     *)
 (*              whose read was really attempted and failed                                                *)
 (* MC_Grouping derives pk/sk/ck from explicit byte strings, so that the window arithmetic itself (which   *)
@@ -30,7 +33,7 @@
 EXTENDS Partition, TLC
 
 VARIABLES inp,     \* the input (constant along a behaviour)
-          stage,   \* "size" | "prefix" | "suffix" | "contents" | "filter" | "done"
+          stage,   \* "size" | "prefix" | "suffix" | "contents" | "filter" | "transform" | "done"
           phase,   \* "begin" | "tasks"          (inside a rehash stage)
           groups,  \* set of [len, hash, files]: the candidate groups between stages
           todo,    \* runs still to hash: set of [len, old, ino, files]
@@ -57,18 +60,24 @@ Uniq(S) == Cardinality({File(f).ino : f \in S})                                 
 Pre(s, g) == CASE s = "prefix" -> Uniq(g.files) > 1
                [] s = "suffix" -> g.len >= Cfg.T /\ Uniq(g.files) > 1
                [] s = "contents" -> Uniq(g.files) > 1 /\ g.len >= Cfg.P
+               [] s = "transform" -> TRUE
 After(s) == CASE s = "size" -> "prefix" [] s = "prefix" -> "suffix"
               [] s = "suffix" -> (IF Cfg.skipContent THEN "filter" ELSE "contents")
-              [] s = "contents" -> "done"
+              [] s = "contents" -> "done" [] s = "transform" -> "done"
 \* every stage but the last applies the permissive filter (always true for --rf-under / --unique); the contents stage the
 \* strict one.  With --skip-content-hash the suffix stage is the last hashing stage and a separate FinalFilter step
 \* applies the strict filter: before fix c637788 the code lacked that step - TLC reported FilterHonoured violated for
 \* kind = "under" (two identical files listed as `unique`) and the real binary confirmed it.
-Post(s, g) == IF s = "contents" THEN Strictly(g.files) ELSE Matches(g.files)
+Post(s, g) == IF s \in {"contents", "transform"} THEN Strictly(g.files) ELSE Matches(g.files)
 Xor(a, b) == (a \ b) \cup (b \ a)
 NewHash(s, f, old) == CASE s = "prefix" -> {File(f).pk}
                         [] s = "suffix" -> Xor(old, {File(f).sk})                 \* old_hash ^ new_hash
                         [] s = "contents" -> {File(f).ck}
+                        [] s = "transform" -> {File(f).tk}
+\* the length a path carries after the stage: the hash function of the transform stage updates it to the output length
+NewLen(s, f, old) == IF s = "transform" THEN File(f).tlen ELSE old
+\* --transform: one pseudo group of all paths (its length and hash "do not matter, will be computed")
+AllInOne == {[len |-> 0, hash |-> {}, files |-> Paths]}
 
 Init0 == /\ stage = "size" /\ phase = "begin" /\ groups = {} /\ todo = {} /\ got = {} /\ pass = {} /\ failed = {}
 
@@ -78,7 +87,7 @@ BySize == /\ stage = "size"
                            Matches(g.files)}
           /\ stage' = "prefix" /\ UNCHANGED <<inp, phase, todo, got, pass, failed>>
 
-Begin == /\ stage \in {"prefix", "suffix", "contents"} /\ phase = "begin"
+Begin == /\ stage \in {"prefix", "suffix", "contents", "transform"} /\ phase = "begin"
          /\ pass' = {g \in groups : ~Pre(stage, g)}
          /\ todo' = UNION {{[len |-> g.len, old |-> g.hash, ino |-> i, files |-> {f \in g.files : File(f).ino = i}] :
                                i \in {File(f).ino : f \in g.files}} : g \in {h \in groups : Pre(stage, h)}}
@@ -89,7 +98,8 @@ Task(r) == /\ phase = "tasks" /\ r \in todo
            /\ todo' = todo \ {r}
            /\ \E dropped \in SUBSET (r.files \cap inp.bad) :
                  /\ (r.files \subseteq inp.bad) => dropped = r.files
-                 /\ got' = got \cup {[f |-> f, len |-> r.len, hash |-> NewHash(stage, CHOOSE x \in r.files : TRUE, r.old)] : f \in r.files \ dropped}
+                 /\ got' = got \cup {[f |-> f, len |-> NewLen(stage, CHOOSE x \in r.files : TRUE, r.len),
+                                        hash |-> NewHash(stage, CHOOSE x \in r.files : TRUE, r.old)] : f \in r.files \ dropped}
                  /\ failed' = failed \cup dropped
            /\ UNCHANGED <<inp, stage, phase, groups, pass>>
 
@@ -107,15 +117,18 @@ Next0 == BySize \/ Begin \/ (\E r \in todo : Task(r)) \/ End \/ FinalFilter
 
 \* ---- the declarative meaning
 Good == Paths \ failed
-SameContent(a, b) == File(a).len = File(b).len /\ File(a).ck = File(b).ck
+SameContent(a, b) == IF Cfg.transform THEN File(a).tlen = File(b).tlen /\ File(a).tk = File(b).tk
+                     ELSE File(a).len = File(b).len /\ File(a).ck = File(b).ck
+EffLen(f) == IF Cfg.transform /\ stage = "done" THEN File(f).tlen ELSE File(f).len
 EndsHash(f) == IF File(f).len >= Cfg.T THEN Xor({File(f).pk}, {File(f).sk}) ELSE {File(f).pk}
 SameEnds(a, b) == File(a).len = File(b).len /\ EndsHash(a) = EndsHash(b)
 SameEndsIdeal(a, b) == File(a).len = File(b).len /\ File(a).pk = File(b).pk /\ (File(a).len >= Cfg.T => File(a).sk = File(b).sk)
 ClassOf(f, S) == {x \in S : SameContent(f, x)}
 Classes(S) == {ClassOf(f, S) : f \in S}
 
-TypeOK == /\ stage \in {"size", "prefix", "suffix", "contents", "filter", "done"} /\ phase \in {"begin", "tasks"}
-          /\ \A g \in groups : g.files \subseteq Paths /\ g.files # {} /\ \A f \in g.files : File(f).len = g.len
+TypeOK == /\ stage \in {"size", "prefix", "suffix", "contents", "filter", "transform", "done"} /\ phase \in {"begin", "tasks"}
+          /\ \A g \in groups : g.files \subseteq Paths /\ (g.files # {} \/ stage = "transform")
+                                /\ (stage # "transform" => \A f \in g.files : EffLen(f) = g.len)
           /\ \A g, h \in groups : g # h => g.files \cap h.files = {}
 \* C01: a reported group holds only byte-identical files (hard links of one file are identical by nature)
 Sound == stage = "done" /\ ~Cfg.skipContent => \A g \in groups : \A a, b \in g.files : SameContent(a, b)
@@ -129,7 +142,7 @@ CompleteSkip == stage = "done" /\ Cfg.skipContent /\ inp.bad = {} /\ Cfg.kind = 
 \* C03/C06: with every file readable, the report is exactly the set of qualifying content classes
 Complete == stage = "done" /\ ~Cfg.skipContent /\ inp.bad = {} => {g.files : g \in groups} = {C \in Classes(Paths) : Strictly(C)}
 \* C03 "never silently dropped at any stage": identical readable files of a qualifying class stay together in every candidate set
-NeverSplit == stage # "size" /\ phase = "begin" /\ Cfg.kind = "over" =>
+NeverSplit == stage \notin {"size", "transform"} /\ phase = "begin" /\ Cfg.kind = "over" =>
                  \A C \in Classes(Good) : Strictly(C) => \E g \in groups : C \subseteq g.files
 \* C15: a file that could not be read is never grouped with a different file, and the others are grouped as if it were absent
 BadAlone == stage = "done" => \A g \in groups : g.files \cap failed = {}
